@@ -82,6 +82,22 @@ where
     returns `None`.
     */
     fn current(&self) -> Option<(&Self::Key, &Vec<u8>)>;
+
+    /**
+    Return the error that cut iteration short, if there was one.
+
+    `next` and `prev` cannot return an error. An iterator that reads from storage that can fail
+    becomes invalid when a read fails and reports the failure here, so callers that reach the end
+    of an iteration should check this method to tell "no more entries" from "could not read
+    further". Iterators that cannot fail keep the default implementation.
+
+    # Legacy
+
+    This is synonomous to LevelDB's `Iterator::status`.
+    */
+    fn status(&self) -> Option<Self::Error> {
+        None
+    }
 }
 
 /**
@@ -145,24 +161,26 @@ impl RainDbIterator for CachingIterator {
     }
 
     fn seek(&mut self, target: &Self::Key) -> Result<(), Self::Error> {
-        self.iterator.seek(target)?;
+        let seek_result = self.iterator.seek(target);
+        // The cache must also be refreshed when the seek failed. Otherwise the entry cached before
+        // the seek would still be reported as the current position.
         self.update_cached_values();
 
-        Ok(())
+        seek_result
     }
 
     fn seek_to_first(&mut self) -> Result<(), Self::Error> {
-        self.iterator.seek_to_first()?;
+        let seek_result = self.iterator.seek_to_first();
         self.update_cached_values();
 
-        Ok(())
+        seek_result
     }
 
     fn seek_to_last(&mut self) -> Result<(), Self::Error> {
-        self.iterator.seek_to_last()?;
+        let seek_result = self.iterator.seek_to_last();
         self.update_cached_values();
 
-        Ok(())
+        seek_result
     }
 
     fn next(&mut self) -> Option<(&Self::Key, &Vec<u8>)> {
@@ -181,6 +199,10 @@ impl RainDbIterator for CachingIterator {
 
     fn current(&self) -> Option<(&Self::Key, &Vec<u8>)> {
         self.cached_entry.as_ref().map(|entry| (&entry.0, &entry.1))
+    }
+
+    fn status(&self) -> Option<Self::Error> {
+        self.iterator.status()
     }
 }
 
@@ -586,5 +608,9 @@ impl RainDbIterator for DatabaseIterator {
                 ));
             }
         }
+    }
+
+    fn status(&self) -> Option<Self::Error> {
+        self.inner_iter.status()
     }
 }
